@@ -43,7 +43,8 @@ SLOTS = os.path.join(VERIF, ".slots")
 KANI_HOME = os.path.expanduser("~/.kani/kani-0.68.0")
 KANI_LIB_C = os.path.join(KANI_HOME, "library/kani/kani_lib.c")
 GUARD = "embedded_graphics_verif"
-NSLOTS = int(os.environ.get("EGV_SLOTS", "15"))
+NSLOTS = int(os.environ.get("EGV_SLOTS", "15"))          # concurrent solver jobs of THIS process
+TOTAL_SLOTS = int(os.environ.get("EGV_TOTAL_SLOTS", "15"))  # slot files shared by all ./check processes
 
 # CBMC option set used by Kani 0.68 (recorded from `cargo kani --verbose`; see DESIGN §2 step 4).
 CBMC_FLAGS = [
@@ -133,7 +134,7 @@ class SlotPool:
         held = []
         while len(held) < k:
             got = False
-            for i in range(self.n):
+            for i in range(max(self.n, TOTAL_SLOTS)):
                 if any(h[0] == i for h in held):
                     continue
                 fd = open(os.path.join(SLOTS, f"slot-{i}"), "w")
@@ -182,6 +183,14 @@ def gen_inputs():
 FOCUS = {"prop": None}
 
 
+def split_feats(features):
+    """A build is a list of cargo features of the harness crate; entries of the form `cfg:NAME`
+    are not cargo features but extra `--cfg NAME` flags for rustc (they reach /repo as well)."""
+    feats = [f for f in features if not f.startswith("cfg:")]
+    cfgs = [f[4:] for f in features if f.startswith("cfg:")]
+    return feats, cfgs
+
+
 def kani_build(features, hooks=True):
     """Compile /repo + the harness modules of `features` with Kani's compiler; returns
     (list of harness metadata dicts, build seconds, hooks_on). Must be called under build lock."""
@@ -193,11 +202,14 @@ def kani_build(features, hooks=True):
     flags = env.get("RUSTFLAGS", "")
     if hooks:
         flags = (flags + f" --cfg {GUARD}").strip()
+    cargo_feats, cfgs = split_feats(features)
+    for c in cfgs:
+        flags = (flags + f" --cfg {c}").strip()
     env["RUSTFLAGS"] = flags
     if FOCUS["prop"]:
         env["EGV_FOCUS"] = FOCUS["prop"]
     cmd = ["cargo", "kani", "--only-codegen", "--no-assertion-reach-checks", "--target-dir", TARGET,
-           "--no-default-features", "--features", ",".join(features)]
+           "--no-default-features", "--features", ",".join(cargo_feats)]
     t0 = time.time()
     r = run(cmd, cwd=HARNESS, env=env)
     dt = time.time() - t0
@@ -443,12 +455,15 @@ fn main() {
     env = dict(ENV)
     if hooks:
         env["RUSTFLAGS"] = (env.get("RUSTFLAGS", "") + f" --cfg {GUARD}").strip()
+    cargo_feats, cfgs = split_feats(features)
+    for c in cfgs:
+        env["RUSTFLAGS"] = (env.get("RUSTFLAGS", "") + f" --cfg {c}").strip()
     if FOCUS["prop"]:
         env["EGV_FOCUS"] = FOCUS["prop"]
     bins = {}
     for prof in ("dev", "release"):
         cmd = ["cargo", "build", "--offline", "--target-dir", TARGET_NATIVE, "--no-default-features",
-               "--features", ",".join(features)]
+               "--features", ",".join(cargo_feats)]
         if prof == "release":
             cmd.append("--release")
         r = run(cmd, cwd=REPLAYER, env=env)
